@@ -268,6 +268,8 @@ def run(ctx):
         # by the rerun ('flaky': 500 in the killed run, 200 afterwards)
         plan = i % 4
         opts['timestamping'] = plan == 0 or rng.random() < 0.15
+        opts['database_uri'] = plan == 3 or rng.random() < 0.1        # --database-uri sqlite:///FILE instead of --database FILE
+        opts['warc_dedup'] = (plan == 2 or rng.random() < 0.1) and not opts['timestamping']   # start-up loads a CDX index again on the rerun
         opts['tries'] = 1 if plan == 2 else rng.choice([2, 2, 3])
         leaves = [p for p, d in site.pages.items() if d['kind'] == 'leaf']
         if leaves and (plan == 1 or rng.random() < 0.25):
